@@ -134,7 +134,7 @@ theorem C16_counterexample_inner_default_returns :
 
 /-- the shape of `WriteLast` on the current tree -/
 theorem C16_on_tree : Facts.overrideChannelInnerDefaultContinues = true ∧
-    Facts.sequenceUpdateOnlyOnSuccess = true := by decide
+    Facts.sequenceUpdateOnlyOnSuccess = true ∧ Facts.sequenceSubscriptionInitialValueDoesNotOverride = true := by decide
 
 -- non-vacuity: a schedule in which the receiver runs between the failed send and the drain
 example : (Oxia.OverrideChannel.run true [.call 1, .writerStep, .call 2, .writerStep, .recv, .writerStep, .writerStep]).written = [1, 2] := by decide
